@@ -40,6 +40,18 @@ import (
 )
 
 var clnSeq atomic.Int64
+
+// descriptor bookkeeping (reported in the evidence): instances loaded, the largest number of open
+// descriptors seen, and how often descriptors had to be closed by number
+var (
+	Loads    atomic.Int64
+	MaxFDs   atomic.Int64
+	FDCloses atomic.Int64
+	loadGate sync.RWMutex
+)
+
+const fdPressure = 15000
+
 var panicsMu sync.Mutex // guards Env.Panics (concurrent requests may panic together)
 
 type Opts struct {
@@ -142,7 +154,10 @@ func (e *Env) load(rotate bool, fee uint) error {
 	}
 	var m *mint.Mint
 	var err error
+	Loads.Add(1)
+	loadGate.RLock()
 	p := core.Guard(func() { m, err = mint.LoadMint(cfg) })
+	loadGate.RUnlock()
 	if p != "" {
 		return &ErrPanic{"LoadMint: " + p}
 	}
@@ -199,6 +214,19 @@ func closeLeakedFDs(dir string) {
 	if err != nil {
 		return
 	}
+	if n := int64(len(ents)); n > MaxFDs.Load() {
+		MaxFDs.Store(n)
+	}
+	// Closing a descriptor by number is only safe while nobody else in the process can have got
+	// that number in the meantime. It is therefore left alone until the process is really about to
+	// run out (the limit is 20 000 here; check.sh raises the soft limit to the hard one): no run of
+	// any check gets there (see DESIGN 6.3), so in practice nothing is closed by number.
+	if len(ents) < fdPressure {
+		return
+	}
+	loadGate.Lock() // no LoadMint (which opens and closes migration files) runs meanwhile
+	defer loadGate.Unlock()
+	FDCloses.Add(1)
 	prefix := filepath.Clean(dir) + string(filepath.Separator)
 	for _, ent := range ents {
 		n, err := strconv.Atoi(ent.Name())
